@@ -15,6 +15,9 @@ package core
 //         initial configuration = what the loader makes of the document; the full snapshot is an INPUT
 //   gpatch <body> <oracle> | dpatch <body> <oracle> | add <name> <body> <oracle> | patch <name> <body> <oracle>
 //   replace <name> <body> <oracle> | delete <name>
+//   par <edit> | <edit> [| <edit>]      the edits are sent concurrently; answer "par r1,r2[,r3] <diff>"
+//   read g | read d | read l | read p <name>   the GET handlers; answer "<status> <what was served>" (redacted
+//         fields left out) + X:… if the read changed the running configuration
 //         oracle = what the API handler's jsonwrapper.Decode makes of the body: ERR, or the fields that are
 //         set with their canonical JSON (k=v,k=v / -), deprecated parameters marked with '!'
 // answer: <dec-err|exists|not-found|invalid|ok> followed by the snapshot DIFF against the previous op
@@ -23,18 +26,24 @@ package core
 import (
 	"bytes"
 	"encoding/json"
-	"errors"
 	"fmt"
 	"os"
 	"path/filepath"
+	"net/http"
+	"net/http/httptest"
 	"reflect"
 	"sort"
 	"strings"
+	"sync"
 	"testing"
+	"time"
+	"unsafe"
 
+	"github.com/bluenviron/mediamtx/internal/api"
+	"github.com/bluenviron/mediamtx/internal/auth"
 	"github.com/bluenviron/mediamtx/internal/conf"
 	"github.com/bluenviron/mediamtx/internal/conf/jsonwrapper"
-	"github.com/bluenviron/mediamtx/internal/logger"
+	"github.com/bluenviron/mediamtx/internal/protocols/httpp"
 	"github.com/bluenviron/mediamtx/internal/verifutil"
 )
 
@@ -44,7 +53,6 @@ type verifC12Snap struct {
 }
 
 var (
-	verifC12Core   *Core
 	verifC12Prev   *verifC12Snap
 	verifC12DepNow bool // deprecated parameters in play in this history (Validate is then not idempotent)
 )
@@ -298,92 +306,29 @@ func verifC12Oracle(scope string, values any, err error, intended []string) stri
 	return strings.Join(parts, ",")
 }
 
-func verifC12Classify(err error) string {
-	switch {
-	case err == nil:
-		return "ok"
-	case errors.Is(err, conf.ErrPathNotFound):
-		return "not-found"
-	case err.Error() == "path already exists":
-		return "exists"
-	}
-	return "invalid"
-}
+// ---------- the running server: a real Core and a real api.API in front of it ----------
 
-func verifC12Answer(res string) string {
-	cur := verifC12Snapshot(verifC12Core.conf.Load())
-	d := verifC12Diff(verifC12Prev, cur)
-	verifC12Prev = cur
-	if len(d) == 0 {
-		return res
-	}
-	return res + " " + strings.Join(d, " ")
-}
+// Nothing below names Core's unexported plumbing (doAPIConfig*, channels): only core.New, Core.Close,
+// Core.APIConfigSnapshot and the HTTP routes of api.API are used, so a refactoring of the plumbing cannot break
+// the harness build.
 
-func verifC12NewCore(c *conf.Conf) (*Core, error) {
-	p := &Core{}
-	p.logger = &logger.Logger{Level: logger.Error}
-	if err := p.logger.Initialize(); err != nil {
-		return nil, err
-	}
-	p.conf.Store(c)
-	return p, nil
-}
+type verifC12Auth struct{}
 
-// commit exactly like Core.run: only on success, the new configuration becomes the running one
-func verifC12Commit(p *Core, newConf *conf.Conf, err error) string {
-	if err == nil {
-		p.conf.Store(newConf)
-	}
-	return verifC12Classify(err)
-}
+func (verifC12Auth) Authenticate(*auth.Request) (string, *auth.Error) { return "", nil }
+func (verifC12Auth) RefreshJWTJWKS()                                  {}
 
-// one API edit on p: what the handler (decode) + Core.run (do…, commit) do
-func verifC12Do(p *Core, f []string) string {
-	switch f[0] {
-	case "gpatch":
-		c, err := verifC12DecodeGlobal(verifutil.UnHex(f[1]))
-		if err != nil {
-			return "dec-err"
-		}
-		nc, err := p.doAPIConfigGlobalPatch(c)
-		return verifC12Commit(p, nc, err)
-
-	case "dpatch":
-		c, err := verifC12DecodePath(verifutil.UnHex(f[1]))
-		if err != nil {
-			return "dec-err"
-		}
-		nc, err := p.doAPIConfigPathDefaultsPatch(c)
-		return verifC12Commit(p, nc, err)
-
-	case "add", "patch", "replace":
-		name := verifutil.UnHexS(f[1])
-		c, err := verifC12DecodePath(verifutil.UnHex(f[2]))
-		if err != nil {
-			return "dec-err"
-		}
-		var nc *conf.Conf
-		switch f[0] {
-		case "add":
-			nc, err = p.doAPIConfigPathAdd(name, c)
-		case "patch":
-			nc, err = p.doAPIConfigPathPatch(name, c)
-		default:
-			nc, err = p.doAPIConfigPathReplace(name, c)
-		}
-		return verifC12Commit(p, nc, err)
-
-	case "delete":
-		nc, err := p.doAPIConfigPathDelete(verifutil.UnHexS(f[1]))
-		return verifC12Commit(p, nc, err)
-	}
-	return "bad-op"
-}
-
-var verifC12Real *Core
+var (
+	verifC12Real    *Core
+	verifC12API     *api.API
+	verifC12Handler http.Handler
+)
 
 func verifC12Stop() {
+	if verifC12API != nil {
+		verifC12API.Close()
+		verifC12API = nil
+		verifC12Handler = nil
+	}
 	if verifC12Real != nil {
 		verifC12Real.Close()
 		verifC12Real = nil
@@ -394,49 +339,243 @@ func verifC12ConfFile() string {
 	return filepath.Join(os.TempDir(), fmt.Sprintf("verif-c12-core-%d.yml", os.Getpid()))
 }
 
-// one API edit through the running Core, the way the HTTP handler does it
-func verifC12DoReal(p *Core, f []string) string {
-	var err error
+// the gin router of an initialized api.API (field httpServer.Handler), so that requests are served without a socket
+func verifC12Router(a *api.API) http.Handler {
+	f := reflect.ValueOf(a).Elem().FieldByName("httpServer")
+	srv := reflect.NewAt(f.Type(), unsafe.Pointer(f.UnsafeAddr())).Elem().Interface().(*httpp.Server)
+	return srv.Handler
+}
+
+func verifC12Start(doc []byte) string {
+	fp := verifC12ConfFile()
+	if err := os.WriteFile(fp, doc, 0o600); err != nil {
+		return "conf-file"
+	}
+	p, ok := New([]string{fp})
+	if !ok {
+		return "core-did-not-start"
+	}
+	verifC12Real = p
+	a := &api.API{
+		Address:      "127.0.0.1:0",
+		ReadTimeout:  conf.Duration(10 * time.Second),
+		WriteTimeout: conf.Duration(10 * time.Second),
+		AuthManager:  verifC12Auth{},
+		Parent:       p,
+	}
+	if err := a.Initialize(); err != nil {
+		return "api-did-not-start"
+	}
+	verifC12API = a
+	verifC12Handler = verifC12Router(a)
+	return ""
+}
+
+func verifC12Serve(method, path string, body []byte) (int, []byte) {
+	req := httptest.NewRequest(method, "/v3/x", bytes.NewReader(body))
+	req.URL.Path = path
+	req.URL.RawPath = ""
+	w := httptest.NewRecorder()
+	verifC12Handler.ServeHTTP(w, req)
+	return w.Code, w.Body.Bytes()
+}
+
+// Core.run answers an edit and only then reloads: wait until it takes the next request
+func verifC12Barrier() bool {
+	err := verifC12Real.APIConfigPathsDelete("\x00verif-barrier")
+	return err == nil || err.Error() != "terminated"
+}
+
+func verifC12Route(f []string) (method, path string, body []byte) {
 	switch f[0] {
 	case "gpatch":
-		c, derr := verifC12DecodeGlobal(verifutil.UnHex(f[1]))
-		if derr != nil {
-			return "dec-err"
-		}
-		err = p.APIConfigGlobalPatch(c)
+		return http.MethodPatch, "/v3/config/global/patch", verifutil.UnHex(f[1])
 	case "dpatch":
-		c, derr := verifC12DecodePath(verifutil.UnHex(f[1]))
-		if derr != nil {
-			return "dec-err"
-		}
-		err = p.APIConfigPathDefaultsPatch(c)
-	case "add", "patch", "replace":
-		name := verifutil.UnHexS(f[1])
-		c, derr := verifC12DecodePath(verifutil.UnHex(f[2]))
-		if derr != nil {
-			return "dec-err"
-		}
-		switch f[0] {
-		case "add":
-			err = p.APIConfigPathsAdd(name, c)
-		case "patch":
-			err = p.APIConfigPathsPatch(name, c)
-		default:
-			err = p.APIConfigPathsReplace(name, c)
-		}
+		return http.MethodPatch, "/v3/config/pathdefaults/patch", verifutil.UnHex(f[1])
+	case "add":
+		return http.MethodPost, "/v3/config/paths/add/" + verifutil.UnHexS(f[1]), verifutil.UnHex(f[2])
+	case "patch":
+		return http.MethodPatch, "/v3/config/paths/patch/" + verifutil.UnHexS(f[1]), verifutil.UnHex(f[2])
+	case "replace":
+		return http.MethodPost, "/v3/config/paths/replace/" + verifutil.UnHexS(f[1]), verifutil.UnHex(f[2])
 	case "delete":
-		err = p.APIConfigPathsDelete(verifutil.UnHexS(f[1]))
+		return http.MethodDelete, "/v3/config/paths/delete/" + verifutil.UnHexS(f[1]), nil
+	}
+	return "", "", nil
+}
+
+// one API edit as an HTTP request; the result class is read off status code and error text
+func verifC12Edit(f []string) string {
+	method, path, body := verifC12Route(f)
+	if method == "" {
+		return "bad-op"
+	}
+	code, resp := verifC12Serve(method, path, body)
+	switch code {
+	case http.StatusOK:
+		return "ok"
+	case http.StatusNotFound:
+		return "not-found"
+	case http.StatusBadRequest:
+		var e struct {
+			Error string `json:"error"`
+		}
+		json.Unmarshal(resp, &e) //nolint:errcheck
+		switch {
+		case e.Error == "path already exists":
+			return "exists"
+		case e.Error == "terminated":
+			return "core-terminated"
+		}
+		// undecodable body or rejected by Validate: told apart by decoding the body the way the handler does
+		var derr error
+		if f[0] == "gpatch" {
+			_, derr = verifC12DecodeGlobal(body)
+		} else if f[0] != "delete" {
+			_, derr = verifC12DecodePath(body)
+		}
+		if derr != nil {
+			return "dec-err"
+		}
+		return "invalid"
+	}
+	return fmt.Sprintf("http-%d", code)
+}
+
+func verifC12Answer(res string) string {
+	cur := verifC12Snapshot(verifC12Real.APIConfigSnapshot())
+	d := verifC12Diff(verifC12Prev, cur)
+	verifC12Prev = cur
+	if len(d) == 0 {
+		return res
+	}
+	return res + " " + strings.Join(d, " ")
+}
+
+// fields whose served value is the redaction placeholder (C07), left out of what reads are compared on
+var verifC12ReadSkip = map[string]bool{"authInternalUsers": true, "publishPass": true, "readPass": true}
+
+func verifC12ReadRec(prefix string, keys []string, obj map[string]json.RawMessage) []string {
+	rec := map[string]string{}
+	for _, k := range keys {
+		if verifC12ReadSkip[k] {
+			continue
+		}
+		if raw, ok := obj[k]; ok {
+			rec[k] = verifutil.Hex(raw)
+		} else {
+			rec[k] = verifutil.HexS("null") // omitempty: a nil pointer
+		}
+	}
+	var out []string
+	verifC12DiffRec(prefix, keys, map[string]string{}, rec, &out)
+	return out
+}
+
+// read g | read d | read l | read p <name>: the GET handlers; answer "<status> <what was served>"; a read must
+// not change the running configuration
+func verifC12Read(f []string) string {
+	before := verifC12Snapshot(verifC12Real.APIConfigSnapshot())
+	var code int
+	var resp []byte
+	var out []string
+	switch f[1] {
+	case "g":
+		code, resp = verifC12Serve(http.MethodGet, "/v3/config/global/get", nil)
+		if code == http.StatusOK {
+			var obj map[string]json.RawMessage
+			if json.Unmarshal(resp, &obj) != nil {
+				return "read-not-json"
+			}
+			out = verifC12ReadRec("G:", verifC12GKeys, obj)
+		}
+	case "d":
+		code, resp = verifC12Serve(http.MethodGet, "/v3/config/pathdefaults/get", nil)
+		if code == http.StatusOK {
+			var obj map[string]json.RawMessage
+			if json.Unmarshal(resp, &obj) != nil {
+				return "read-not-json"
+			}
+			out = verifC12ReadRec("D:", verifC12PKeys, obj)
+		}
+	case "p":
+		name := verifutil.UnHexS(f[2])
+		code, resp = verifC12Serve(http.MethodGet, "/v3/config/paths/get/"+name, nil)
+		if code == http.StatusOK {
+			var obj map[string]json.RawMessage
+			if json.Unmarshal(resp, &obj) != nil {
+				return "read-not-json"
+			}
+			pre := "P:" + f[2] + ":"
+			out = append([]string{pre + "+"}, verifC12ReadRec(pre, verifC12PKeys, obj)...)
+		}
+	case "l":
+		req := httptest.NewRequest(http.MethodGet, "/v3/config/paths/list?itemsPerPage=1000", nil)
+		w := httptest.NewRecorder()
+		verifC12Handler.ServeHTTP(w, req)
+		code, resp = w.Code, w.Body.Bytes()
+		if code == http.StatusOK {
+			var l struct {
+				Items []map[string]json.RawMessage `json:"items"`
+			}
+			if json.Unmarshal(resp, &l) != nil {
+				return "read-not-json"
+			}
+			byName := map[string]map[string]json.RawMessage{}
+			var names []string
+			for _, it := range l.Items {
+				var n string
+				json.Unmarshal(it["name"], &n) //nolint:errcheck
+				byName[n] = it
+				names = append(names, n)
+			}
+			sort.Strings(names)
+			for _, n := range names {
+				pre := "P:" + verifutil.HexS(n) + ":"
+				out = append(out, pre+"+")
+				out = append(out, verifC12ReadRec(pre, verifC12PKeys, byName[n])...)
+			}
+		}
 	default:
 		return "bad-op"
 	}
-	if err != nil && err.Error() == "terminated" {
-		return "core-terminated"
+	ans := fmt.Sprint(code)
+	if len(out) > 0 {
+		ans += " " + strings.Join(out, " ")
 	}
-	// Core.run answers the request and only then reloads: wait until it takes the next request
-	if berr := p.APIConfigPathsDelete("\x00verif-barrier"); berr != nil && berr.Error() == "terminated" {
-		return "core-terminated"
+	if len(verifC12Diff(before, verifC12Snapshot(verifC12Real.APIConfigSnapshot()))) != 0 {
+		ans += " X:read-changed-the-running-configuration"
 	}
-	return verifC12Classify(err)
+	return ans
+}
+
+// par <op> | <op> [| <op>]: the edits are in flight at the same time
+func verifC12Par(f []string) string {
+	var subs [][]string
+	cur := []string{}
+	for _, w := range f[1:] {
+		if w == "|" {
+			subs = append(subs, cur)
+			cur = []string{}
+		} else {
+			cur = append(cur, w)
+		}
+	}
+	subs = append(subs, cur)
+	res := make([]string, len(subs))
+	start := make(chan struct{})
+	var wg sync.WaitGroup
+	for i := range subs {
+		wg.Add(1)
+		go func(i int) {
+			defer wg.Done()
+			<-start
+			res[i] = verifC12Edit(subs[i])
+		}(i)
+	}
+	close(start)
+	wg.Wait()
+	return strings.Join(res, ",")
 }
 
 func verifC12Exec(op string) string {
@@ -448,18 +587,11 @@ func verifC12Exec(op string) string {
 		if err != nil {
 			return "initial-document-rejected"
 		}
-		fp := verifC12ConfFile()
-		if err = os.WriteFile(fp, doc, 0o600); err != nil {
-			return "conf-file"
+		if e := verifC12Start(doc); e != "" {
+			return e
 		}
-		p, ok := New([]string{fp})
-		if !ok {
-			return "core-did-not-start"
-		}
-		verifC12Real = p
-		verifC12Core = p
 		verifC12DepNow = f[2] == "1"
-		verifC12Prev = verifC12Snapshot(p.conf.Load())
+		verifC12Prev = verifC12Snapshot(verifC12Real.APIConfigSnapshot())
 		if strings.Join(verifC12Diff(verifC12Empty(), verifC12Snapshot(c)), " ") != strings.Join(f[3:], " ") {
 			return "snapshot-not-reproducible"
 		}
@@ -468,21 +600,76 @@ func verifC12Exec(op string) string {
 		}
 		return "ok"
 	}
-	if strings.Contains(f[len(f)-1], "!") {
+	if f[0] == "read" {
+		return verifC12Read(f)
+	}
+	if strings.Contains(op, "!") {
 		verifC12DepNow = true
 	}
-	res := verifC12DoReal(verifC12Core, f)
-	if res == "bad-op" || res == "core-terminated" {
-		return res
+	var res string
+	if f[0] == "par" {
+		res = "par " + verifC12Par(f)
+	} else {
+		res = verifC12Edit(f)
+	}
+	if res == "bad-op" || strings.Contains(res, "core-terminated") || !verifC12Barrier() {
+		return "core-terminated"
 	}
 	ans := verifC12Answer(res)
-	if res == "ok" && verifC12Prev != nil && !verifC12DepNow {
+	if strings.Contains(res, "ok") && !verifC12DepNow {
 		// "an edit that makes the configuration invalid is rejected": what was accepted must validate
-		if err := verifC12Core.conf.Load().Clone().Validate(nil); err != nil {
+		if err := verifC12Real.APIConfigSnapshot().Clone().Validate(nil); err != nil {
 			ans += " X:stored-configuration-does-not-validate"
 		}
 	}
 	return ans
+}
+
+// the generator's own idea of the configuration (conf-level edits only), just to know which names exist
+type verifC12Scratch struct{ c *conf.Conf }
+
+func (s *verifC12Scratch) do(f []string) {
+	nc := s.c.Clone()
+	switch f[0] {
+	case "gpatch":
+		c, err := verifC12DecodeGlobal(verifutil.UnHex(f[1]))
+		if err != nil {
+			return
+		}
+		nc.PatchGlobal(&c)
+	case "dpatch":
+		c, err := verifC12DecodePath(verifutil.UnHex(f[1]))
+		if err != nil {
+			return
+		}
+		nc.PatchPathDefaults(&c)
+	case "add", "patch", "replace":
+		c, err := verifC12DecodePath(verifutil.UnHex(f[2]))
+		if err != nil {
+			return
+		}
+		name := verifutil.UnHexS(f[1])
+		switch f[0] {
+		case "add":
+			err = nc.AddPath(name, &c)
+		case "patch":
+			err = nc.PatchPath(name, &c)
+		default:
+			err = nc.ReplacePath(name, &c)
+		}
+		if err != nil {
+			return
+		}
+	case "delete":
+		if nc.RemovePath(verifutil.UnHexS(f[1])) != nil {
+			return
+		}
+	default:
+		return
+	}
+	if nc.Validate(nil) == nil {
+		s.c = nc
+	}
 }
 
 // ---------- generator ----------
@@ -695,7 +882,8 @@ func verifC12GenBody(r *verifutil.Rand, fields []verifC12Field, popular []string
 	return verifC12Body(kvs), intended
 }
 
-var verifC12Names = []string{"cam1", "cam2", "live/a", "proxied", "~^x[0-9]+$", "all_others", "rec", "a b", "../up", "~(", ""}
+// (the empty name cannot be expressed in a request path: the handlers answer "invalid name")
+var verifC12Names = []string{"cam1", "cam2", "live/a", "proxied", "~^x[0-9]+$", "all_others", "rec", "a b", "../up", "~("}
 
 func verifC12PickName(r *verifutil.Rand, existing []string) string {
 	if len(existing) > 0 && r.Chance(5, 6) {
@@ -741,8 +929,8 @@ func verifC12InitialDoc(r *verifutil.Rand, allowDep bool) []byte {
 		default:
 			// null body: OptionalPaths[name] is a nil entry until Validate fills it
 		}
-		if allowDep && r.Chance(1, 3) {
-			sb.WriteString("    publishUser: u1\n    publishPass: pw1\n")
+		if allowDep && (i == 0 || r.Chance(1, 3)) {
+			sb.WriteString("    publishUser: u1\n    publishPass: pw1\n    readPass: rpw\n")
 		}
 	}
 	return []byte(sb.String())
@@ -750,7 +938,7 @@ func verifC12InitialDoc(r *verifutil.Rand, allowDep bool) []byte {
 
 func verifC12Gen(r *verifutil.Rand, i int, thorough bool) []string {
 	verifC12InitFields()
-	allowDep := i%7 == 6
+	allowDep := i%5 == 4
 	var c *conf.Conf
 	var doc []byte
 	for {
@@ -768,15 +956,12 @@ func verifC12Gen(r *verifutil.Rand, i int, thorough bool) []string {
 	}
 	ops := []string{fmt.Sprintf("reset %s %s %s", verifutil.Hex(doc), dep0, strings.Join(verifC12Diff(verifC12Empty(), snap), " "))}
 
-	// the generator runs its ops on a scratch Core of its own, only to know which names exist right now
-	scratch, err := verifC12NewCore(c)
-	if err != nil {
-		panic(err)
-	}
+	// the generator applies its ops to a configuration of its own, only to know which names exist right now
+	scratch := &verifC12Scratch{c}
 	var names []string
 	refresh := func() {
 		names = names[:0]
-		for n := range scratch.conf.Load().OptionalPaths {
+		for n := range scratch.c.OptionalPaths {
 			names = append(names, n)
 		}
 		sort.Strings(names)
@@ -784,8 +969,16 @@ func verifC12Gen(r *verifutil.Rand, i int, thorough bool) []string {
 	refresh()
 	emit := func(op string) {
 		ops = append(ops, op)
-		verifC12Do(scratch, strings.Fields(op))
+		scratch.do(strings.Fields(op))
 		refresh()
+	}
+	read := func(what string) {
+		switch what {
+		case "p":
+			ops = append(ops, "read p "+verifutil.HexS(verifC12PickName(r, names)))
+		default:
+			ops = append(ops, "read "+what)
+		}
 	}
 
 	n := 3 + r.Intn(18)
@@ -822,7 +1015,7 @@ func verifC12Gen(r *verifutil.Rand, i int, thorough bool) []string {
 		}
 		name := names[r.Intn(len(names))]
 		key := echoKeys[r.Intn(len(echoKeys))]
-		cur := verifC12Snapshot(scratch.conf.Load())
+		cur := verifC12Snapshot(scratch.c)
 		shown, ok := cur.p[name][key]
 		if !ok {
 			return
@@ -843,8 +1036,107 @@ func verifC12Gen(r *verifutil.Rand, i int, thorough bool) []string {
 		}
 	}
 
+	// read - edit - read, the edit at ANOTHER level than the read: a path is read, then the path defaults (or a
+	// global parameter) change, then the path is read again and must show the inherited new value
+	rer := func() {
+		if len(names) == 0 {
+			return
+		}
+		name := names[r.Intn(len(names))]
+		key := echoKeys[r.Intn(len(echoKeys))]
+		cur := verifC12Snapshot(scratch.c)
+		other := string(verifutil.UnHex(cur.d[key]))
+		for t := 0; t < 8 && other == string(verifutil.UnHex(cur.d[key])); t++ {
+			other = verifC12ValueFor(r, key, byKey[key].typ, cur.d[key])
+		}
+		ops = append(ops, r.Pick("read p "+verifutil.HexS(name), "read l"))
+		if r.Chance(1, 4) {
+			body, intended := verifC12GenBody(r, verifC12GFields, verifC12PopularGlobal, cur.g, allowDep)
+			cc, err := verifC12DecodeGlobal(body)
+			emit(fmt.Sprintf("gpatch %s %s", verifutil.Hex(body), verifC12Oracle("g", cc.Values, err, intended)))
+		} else {
+			pathOp("dpatch", "", []verifC12KV{{key, other}})
+		}
+		ops = append(ops, "read p "+verifutil.HexS(name))
+		if r.Bool() {
+			ops = append(ops, "read l")
+		}
+		ops = append(ops, r.Pick("read d", "read g"))
+	}
+
+	// two or three edits in flight at once
+	subOp := func(kind, name string, kvs []verifC12KV) string {
+		body := verifC12Body(kvs)
+		var intended []string
+		for _, e := range kvs {
+			intended = append(intended, e.k)
+		}
+		if intended == nil {
+			intended = []string{}
+		}
+		switch kind {
+		case "gpatch":
+			cc, err := verifC12DecodeGlobal(body)
+			return fmt.Sprintf("gpatch %s %s", verifutil.Hex(body), verifC12Oracle("g", cc.Values, err, intended))
+		case "dpatch":
+			cc, err := verifC12DecodePath(body)
+			return fmt.Sprintf("dpatch %s %s", verifutil.Hex(body), verifC12Oracle("p", cc.Values, err, intended))
+		case "delete":
+			return "delete " + verifutil.HexS(name)
+		}
+		cc, err := verifC12DecodePath(body)
+		return fmt.Sprintf("%s %s %s %s", kind, verifutil.HexS(name), verifutil.Hex(body), verifC12Oracle("p", cc.Values, err, intended))
+	}
+	par := func() {
+		fresh := []string{"par1", "par2", "par/3"}[r.Intn(3)]
+		var subs []string
+		switch r.Intn(6) {
+		case 0: // the same new name added twice (three times)
+			subs = append(subs, subOp("add", fresh, []verifC12KV{{"maxReaders", "1"}}), subOp("add", fresh, []verifC12KV{{"maxReaders", "2"}}))
+			if r.Bool() {
+				subs = append(subs, subOp("add", fresh, []verifC12KV{{"record", "false"}}))
+			}
+		case 1: // two fields of one path
+			if len(names) == 0 {
+				return
+			}
+			n := names[r.Intn(len(names))]
+			subs = append(subs, subOp("patch", n, []verifC12KV{{"maxReaders", r.Pick("3", "4")}}), subOp("patch", n, []verifC12KV{{"rtspAnyPort", "true"}}))
+		case 2: // two different paths
+			subs = append(subs, subOp("add", fresh, []verifC12KV{{"maxReaders", "1"}}), subOp("add", fresh+"b", []verifC12KV{{"maxReaders", "2"}}))
+			if len(names) > 0 {
+				subs = append(subs, subOp("patch", names[r.Intn(len(names))], []verifC12KV{{"overridePublisher", "false"}}))
+			}
+		case 3: // global and defaults
+			subs = append(subs, subOp("gpatch", "", []verifC12KV{{"readTimeout", r.Pick(`"11s"`, `"12s"`)}}), subOp("dpatch", "", []verifC12KV{{"maxReaders", r.Pick("8", "9")}}))
+		case 4: // delete against patch / replace of the same path
+			if len(names) == 0 {
+				return
+			}
+			n := names[r.Intn(len(names))]
+			subs = append(subs, subOp("delete", n, nil), subOp(r.Pick("patch", "replace"), n, []verifC12KV{{"maxReaders", "6"}}))
+		default: // defaults against a path that inherits
+			if len(names) == 0 {
+				return
+			}
+			subs = append(subs, subOp("dpatch", "", []verifC12KV{{"rtspAnyPort", "true"}}), subOp("replace", names[r.Intn(len(names))], nil),
+				subOp("add", fresh, nil))
+		}
+		ops = append(ops, "par "+strings.Join(subs, " | "))
+		for _, so := range subs {
+			scratch.do(strings.Fields(so))
+		}
+		refresh()
+	}
+
 	for j := 0; j < n; j++ {
-		switch k := r.Intn(22); {
+		switch k := r.Intn(30); {
+		case k >= 28:
+			par()
+		case k >= 26:
+			rer()
+		case k >= 22:
+			read(r.Pick("p", "p", "l", "d", "g"))
 		case k >= 20:
 			echo()
 		case k < 3:
